@@ -159,21 +159,333 @@ theorem load_written_spline (k : Nat) (t : List JNum) (c : Option (List JNum)) (
     rw [ha]
     simpa using hv
 
+/-- a stored calendar: distinct holidays written in the library's datetime text, distinct weekday names -/
+def CalDocOK (c : List String × List String) : Prop :=
+  (∃ ds : List Int, c.1.map parseDateTime = ds.map some ∧ ds.Nodup) ∧
+  (∃ ws : List Nat, c.2.map parseWeekday = ws.map some ∧ ws.Nodup)
+
+theorem mapM_of_map_eq {α β : Type} (f : α → Option β) : ∀ (xs : List α) (ys : List β),
+    xs.map f = ys.map some → xs.mapM f = some ys := by
+  intro xs
+  induction xs with
+  | nil => intro ys h; cases ys with
+    | nil => rfl
+    | cons y ys => simp at h
+  | cons x xs ih =>
+    intro ys h
+    cases ys with
+    | nil => simp at h
+    | cons y ys =>
+      simp only [List.map_cons, List.cons.injEq] at h
+      simp [List.mapM_cons, h.1, ih ys h.2]
+
+theorem load_written_cal (c : List String × List String) (h : CalDocOK c) :
+    loadCal (writeCal c.1 c.2) = some ⟨c.1.length, c.2.length⟩ := by
+  obtain ⟨⟨ds, hd, hdn⟩, ⟨ws, hw, hwn⟩⟩ := h
+  have h1 : List.mapM (asDateTime ∘ JVal.str) c.1 = some ds := by
+    apply mapM_of_map_eq
+    simpa [asDateTime, asStr, Function.comp_def] using hd
+  have h2 : List.mapM (asWeekday ∘ JVal.str) c.2 = some ws := by
+    apply mapM_of_map_eq
+    simpa [asWeekday, asStr, Function.comp_def] using hw
+  have l1 : ds.length = c.1.length := by have := congrArg List.length hd; simpa using this.symm
+  have l2 : ws.length = c.2.length := by have := congrArg List.length hw; simpa using this.symm
+  simp [loadCal, writeCal, fieldsOf, fieldOf, valuesOf, req, asVec, h1, h2, eraseDups_of_nodup _ hdn,
+    eraseDups_of_nodup _ hwn, l1, l2]
+
+theorem mapM_written_cals (cs : List (List String × List String)) (h : ∀ c ∈ cs, CalDocOK c) :
+    List.mapM (loadCal ∘ fun c => writeCal c.1 c.2) cs = some (cs.map (fun c => ⟨c.1.length, c.2.length⟩)) := by
+  induction cs with
+  | nil => rfl
+  | cons c cs ih =>
+    simp [List.mapM_cons, load_written_cal c (h c List.mem_cons_self),
+      ih (fun x hx => h x (List.mem_cons_of_mem _ hx))]
+
+theorem load_written_unioncal (cals : List (List String × List String))
+    (settle : Option (List (List String × List String)))
+    (hc : ∀ c ∈ cals, CalDocOK c) (hs : ∀ ss, settle = some ss → ∀ c ∈ ss, CalDocOK c) :
+    loadUnionCal (writeUnionCal cals settle) = some (cals.length, settle.map List.length) := by
+  cases settle with
+  | none =>
+    simp [loadUnionCal, writeUnionCal, fieldsOf, fieldOf, valuesOf, req, opt, asOpt, asVec, mapM_written_cals cals hc]
+  | some ss =>
+    have := mapM_written_cals ss (hs ss rfl)
+    simp [loadUnionCal, writeUnionCal, fieldsOf, fieldOf, valuesOf, req, opt, asOpt, asVec, mapM_written_cals cals hc,
+      this]
+
+/-- `NamedCal::try_new` looks at the lower-cased name only -/
+theorem namedTryNew_lower (table : String → Option Cal) (name : String) :
+    namedTryNew table (lowerStr name) = namedTryNew table name := by
+  unfold namedTryNew
+  simp only [lowerStr_idem]
+
+/-- A saved named calendar (stored by its lower-cased name) loads to the same name and the same calendars. -/
+theorem load_written_namedcal (table : String → Option Cal) (name nm : String) (u : UnionCal)
+    (h : namedTryNew table name = .ok (nm, u)) :
+    loadNamedCal table (writeNamedCal nm) = some nm ∧ namedTryNew table nm = .ok (nm, u) := by
+  have hnm : nm = lowerStr name := by
+    unfold namedTryNew at h
+    simp only at h
+    split at h
+    · split at h
+      · cases h
+      · injection h with h; injection h with h1 _; exact h1.symm
+    · split at h
+      · cases h
+      · split at h
+        · cases h
+        · injection h with h; injection h with h1 _; exact h1.symm
+    · cases h
+  have h2 : namedTryNew table nm = .ok (nm, u) := by rw [hnm, namedTryNew_lower]; rw [← hnm]; exact h
+  refine ⟨?_, h2⟩
+  simp [loadNamedCal, writeNamedCal, fieldsOf, fieldOf, valuesOf, req, asStr, h2]
+
+theorem nd1_eq (xs : List JNum) : nd1 xs = nd1g (xs.map .num) := by simp [nd1, nd1g]
+
+theorem length_mapM_some {α β : Type} (f : α → Option β) : ∀ (xs : List α) (ys : List β),
+    xs.mapM f = some ys → ys.length = xs.length := by
+  intro xs
+  induction xs with
+  | nil => intro ys h; simp at h; subst h; rfl
+  | cons x xs ih =>
+    intro ys h
+    rw [List.mapM_cons] at h
+    cases hx : f x with
+    | none => simp [hx] at h
+    | some y =>
+      cases hr : xs.mapM f with
+      | none => simp [hx, hr] at h
+      | some r =>
+        simp [hx, hr] at h
+        subst h
+        simp [ih r hr]
+
+theorem asArr1_nd1g {α : Type} (elem : JVal → Option α) (items : List JVal) (vals : List α)
+    (h : items.mapM elem = some vals) (hsz : items.length < 2 ^ 64) :
+    asArr1 elem (nd1g items) = some vals := by
+  have h' : items.length < 18446744073709551616 := hsz
+  have hl : vals.length = items.length := by
+    exact length_mapM_some elem items vals h
+  simp [asArr1, nd1g, ndFields, valuesOf, versionOk, asU8, natNum, asVec, asUsize, h', h, hl]
+
+def Load.NumDoc.OK : NumDoc → Prop
+  | .f64 _ => True
+  | .dual _ names d => names.Nodup ∧ d.length = names.length ∧ d.length < 2 ^ 64
+  | .dual2 _ names d h => names.Nodup ∧ d.length = names.length ∧ h.length = names.length * names.length ∧
+      d.length < 2 ^ 64
+
+theorem load_written_number (n : NumDoc) (h : n.OK) : loadNumber (writeNumber n) = some () := by
+  cases n with
+  | f64 x => simp [loadNumber, writeNumber, enumOf, asF64]
+  | dual re names d =>
+    obtain ⟨h1, h2, h3⟩ := h
+    simp [loadNumber, writeNumber, enumOf, load_written_dual re names d h1 h2 h3]
+  | dual2 re names d hh =>
+    obtain ⟨h1, h2, h3, h4⟩ := h
+    simp [loadNumber, writeNumber, enumOf, load_written_dual2 re names d hh h1 h2 h3 h4]
+
+/-! distinct keys: the node map keeps every node, in document order -/
+
+theorem filter_key_of_nodup {α : Type} : ∀ (l : List (Int × α)), (l.map (·.1)).Nodup → ∀ kv ∈ l,
+    l.filter (fun x => x.1 == kv.1) = [kv] := by
+  intro l
+  induction l with
+  | nil => intro _ kv h; cases h
+  | cons a as ih =>
+    intro hn kv hkv
+    simp only [List.map_cons, List.nodup_cons] at hn
+    rcases List.mem_cons.1 hkv with rfl | hin
+    · have : as.filter (fun x => x.1 == kv.1) = [] := by
+        rw [List.filter_eq_nil_iff]
+        intro x hx hxe
+        exact hn.1 (List.mem_map.2 ⟨x, hx, by simpa using hxe⟩)
+      simp [List.filter_cons, this]
+    · have hne : ¬ (a.1 == kv.1) = true := by
+        intro he
+        exact hn.1 (List.mem_map.2 ⟨kv, hin, by simpa using (beq_iff_eq.1 he).symm⟩)
+      simp only [List.filter_cons, hne]
+      exact ih hn.2 kv hin
+
+theorem lastPerKey_of_nodup {α : Type} (l : List (Int × α)) (h : (l.map (·.1)).Nodup) :
+    lastPerKey l = l.map (·.2) := by
+  unfold lastPerKey
+  simp only
+  rw [eraseDups_of_nodup _ h, List.filterMap_map]
+  rw [show l.map (·.2) = l.filterMap (fun kv => some kv.2) by simp [List.filterMap_eq_map]]
+  apply List.filterMap_congr
+  intro kv hkv
+  simp only [Function.comp]
+  rw [filter_key_of_nodup l h kv hkv]
+  rfl
+
+theorem writeSplineF64_eq (k : Nat) (t : List JNum) (c : Option (List JNum)) (n : Nat) :
+    writeSplineF64 k t c n = writeSplineG k t (c.map (fun xs => xs.map .num)) n := by
+  cases c <;> simp [writeSplineF64, writeSplineG, nd1_eq]
+
+theorem load_written_spline_g {α : Type} (elem : JVal → Option α) (k : Nat) (t : List JNum)
+    (c : Option (List JVal)) (n : Nat)
+    (ht : 2 ≤ t.length) (hs : sortedNums t = true) (hk : k ≤ t.length) (hn : n = t.length - k)
+    (hc : ∀ items, c = some items → items.length = n ∧ ∃ vals, items.mapM elem = some vals)
+    (hsz : t.length < 2 ^ 64) :
+    loadSpline elem (writeSplineG k t c n) = some ⟨k, t.length, n, c.map List.length⟩ := by
+  have e64 : (2:Nat)^64 = 18446744073709551616 := by norm_num
+  have hk' : k < 18446744073709551616 := by omega
+  have hn' : n < 18446744073709551616 := by omega
+  have hv : validSpline k t (c.map List.length) n = some ⟨k, t.length, n, c.map List.length⟩ := by
+    unfold validSpline
+    have h1 : ¬ (t.length < 2) := by omega
+    have h2 : ¬ (k > t.length) := by omega
+    cases c with
+    | none => simp [h1, hs, h2, hn, coeffsOk]
+    | some xs => simp [h1, hs, h2, hn, coeffsOk, (hc xs rfl).1]
+  cases c with
+  | none =>
+    simp [loadSpline, writeSplineG, loadSplineInner, fieldsOf, fieldOf, valuesOf, req, opt, asOpt, asUsize,
+      natNum, hk', hn', asVec] at hv ⊢
+    exact hv
+  | some items =>
+    obtain ⟨hl, vals, hvals⟩ := hc items rfl
+    have hx : items.length < 2 ^ 64 := by omega
+    have ha := asArr1_nd1g elem items vals hvals hx
+    have hvl : vals.length = items.length := length_mapM_some elem items vals hvals
+    simp [loadSpline, writeSplineG, loadSplineInner, fieldsOf, fieldOf, valuesOf, req, opt, asUsize,
+      natNum, hk', hn', asVec] at hv ⊢
+    simp [asOpt, nd1g] at ha ⊢
+    rw [ha]
+    simpa [hvl] using hv
+
+/-- written first-order coefficient documents load -/
+theorem mapM_written_duals (ds : List (JNum × List String × List JNum))
+    (h : ∀ x ∈ ds, NumDoc.OK (.dual x.1 x.2.1 x.2.2)) :
+    (ds.map (fun x => writeDual x.1 x.2.1 x.2.2)).mapM loadDual
+      = some (ds.map (fun x => ⟨x.2.1.length, x.2.1.length⟩)) := by
+  induction ds with
+  | nil => rfl
+  | cons x xs ih =>
+    obtain ⟨h1, h2, h3⟩ := h x List.mem_cons_self
+    simp only [List.map_cons, List.mapM_cons, load_written_dual x.1 x.2.1 x.2.2 h1 h2 h3,
+      ih (fun y hy => h y (List.mem_cons_of_mem _ hy))]
+    rfl
+
+theorem mapM_written_dual2s (ds : List (JNum × List String × List JNum × List JNum))
+    (h : ∀ x ∈ ds, NumDoc.OK (.dual2 x.1 x.2.1 x.2.2.1 x.2.2.2)) :
+    (ds.map (fun x => writeDual2 x.1 x.2.1 x.2.2.1 x.2.2.2)).mapM loadDual2
+      = some (ds.map (fun x => ⟨x.2.1.length, x.2.1.length, x.2.1.length, x.2.1.length⟩)) := by
+  induction ds with
+  | nil => rfl
+  | cons x xs ih =>
+    obtain ⟨h1, h2, h3, h4⟩ := h x List.mem_cons_self
+    simp only [List.map_cons, List.mapM_cons, load_written_dual2 x.1 x.2.1 x.2.2.1 x.2.2.2 h1 h2 h3 h4,
+      ih (fun y hy => h y (List.mem_cons_of_mem _ hy))]
+    rfl
+
+theorem writeCurveF64_eq (keys : List String) (vals : List JNum) (interp id conv modi : String)
+    (base : Option JNum) (cal : String) :
+    writeCurveF64 keys vals interp id conv modi base cal
+      = writeCurveG (.obj [("F64", .obj (keys.zip (vals.map .num)))]) (.obj [("NamedCal", writeNamedCal cal)])
+          interp id conv modi base := rfl
+
+theorem load_written_curve_g (table : String → Option Cal) (nodesDoc calDoc : JVal) (ns : NodesShape)
+    (kind : String) (interp id conv modi : String) (base : Option JNum)
+    (hn : loadNodes nodesDoc = some ns) (hcal : loadCalType table calDoc = some kind)
+    (hi : interp ∈ interpolatorNames) (hc : conv ∈ conventionNames) (hm : modi ∈ modifierNames) :
+    loadCurve table (writeCurveG nodesDoc calDoc interp id conv modi base)
+      = some ⟨ns, interp, id, conv, modi, base.isSome, kind⟩ := by
+  cases base with
+  | none =>
+    simp [loadCurve, writeCurveG, loadCurveDF, fieldsOf, fieldOf, valuesOf, req, opt, asOpt, hn, loadInterpolator,
+      enumOf, hi, asStr, unitEnumOf, hc, hm, hcal]
+  | some b =>
+    simp [loadCurve, writeCurveG, loadCurveDF, fieldsOf, fieldOf, valuesOf, req, opt, asOpt, hn, loadInterpolator,
+      enumOf, hi, asStr, unitEnumOf, hc, hm, hcal, asF64]
+
+/-- a typed node map written under distinct integer keys: every node is read, in document order -/
+theorem asI64Map_written_g {α : Type} (elem : JVal → Option α) (keys : List String) (ks : List Int)
+    (items : List JVal) (vals : List α)
+    (hk : keys.map parseI64Key = ks.map some) (hv : items.mapM elem = some vals) (hl : items.length = keys.length) :
+    asI64Map elem (.obj (keys.zip items)) = some (ks.zip vals) := by
+  unfold asI64Map
+  simp only
+  induction keys generalizing ks items vals with
+  | nil =>
+    cases ks with
+    | nil => simp
+    | cons k ks => simp at hk
+  | cons s keys ih =>
+    cases ks with
+    | nil => simp at hk
+    | cons k ks =>
+      cases items with
+      | nil => simp at hl
+      | cons it items =>
+        simp only [List.map_cons, List.cons.injEq] at hk
+        rw [List.mapM_cons] at hv
+        cases hx : elem it with
+        | none => simp [hx] at hv
+        | some v =>
+          cases hr : items.mapM elem with
+          | none => simp [hx, hr] at hv
+          | some r =>
+            simp [hx, hr] at hv
+            subst hv
+            simp only [List.zip_cons_cons, List.mapM_cons, hk.1, hx]
+            rw [ih ks items r hk.2 hr (by simpa using hl)]
+            rfl
+
+theorem loadNodes_dual (keys : List String) (ks : List Int) (ds : List (JNum × List String × List JNum))
+    (hk : keys.map parseI64Key = ks.map some) (hd : ks.Nodup) (hl : ds.length = keys.length)
+    (h : ∀ x ∈ ds, NumDoc.OK (.dual x.1 x.2.1 x.2.2)) :
+    loadNodes (.obj [("Dual", .obj (keys.zip (ds.map (fun x => writeDual x.1 x.2.1 x.2.2))))])
+      = some (.dual (ds.map (fun x => ⟨x.2.1.length, x.2.1.length⟩))) := by
+  have hlen : ks.length = keys.length := by have := congrArg List.length hk; simpa using this.symm
+  have hm := asI64Map_written_g loadDual keys ks _ _ hk (mapM_written_duals ds h) (by simpa using hl)
+  simp only [loadNodes, enumOf, hm, Option.map_some]
+  rw [lastPerKey_of_nodup]
+  · rw [List.map_snd_zip]; simp; omega
+  · rw [List.map_fst_zip]; exact hd; simp; omega
+
+theorem loadNodes_dual2 (keys : List String) (ks : List Int)
+    (ds : List (JNum × List String × List JNum × List JNum))
+    (hk : keys.map parseI64Key = ks.map some) (hd : ks.Nodup) (hl : ds.length = keys.length)
+    (h : ∀ x ∈ ds, NumDoc.OK (.dual2 x.1 x.2.1 x.2.2.1 x.2.2.2)) :
+    loadNodes (.obj [("Dual2", .obj (keys.zip (ds.map (fun x => writeDual2 x.1 x.2.1 x.2.2.1 x.2.2.2))))])
+      = some (.dual2 (ds.map (fun x => ⟨x.2.1.length, x.2.1.length, x.2.1.length, x.2.1.length⟩))) := by
+  have hlen : ks.length = keys.length := by have := congrArg List.length hk; simpa using this.symm
+  have hm := asI64Map_written_g loadDual2 keys ks _ _ hk (mapM_written_dual2s ds h) (by simpa using hl)
+  simp only [loadNodes, enumOf, hm, Option.map_some]
+  rw [lastPerKey_of_nodup]
+  · rw [List.map_snd_zip]; simp; omega
+  · rw [List.map_fst_zip]; exact hd; simp; omega
+
+theorem loadCalType_cal (table : String → Option Cal) (c : List String × List String) (h : CalDocOK c) :
+    loadCalType table (.obj [("Cal", writeCal c.1 c.2)]) = some "Cal" := by
+  simp [loadCalType, enumOf, load_written_cal c h]
+
+theorem loadCalType_union (table : String → Option Cal) (cals : List (List String × List String))
+    (settle : Option (List (List String × List String)))
+    (hc : ∀ c ∈ cals, CalDocOK c) (hs : ∀ ss, settle = some ss → ∀ c ∈ ss, CalDocOK c) :
+    loadCalType table (.obj [("UnionCal", writeUnionCal cals settle)]) = some "UnionCal" := by
+  simp [loadCalType, enumOf, load_written_unioncal cals settle hc hs]
+
+theorem loadCalType_named (table : String → Option Cal) (nm : String)
+    (h : loadNamedCal table (writeNamedCal nm) = some nm) :
+    loadCalType table (.obj [("NamedCal", writeNamedCal nm)]) = some "NamedCal" := by
+  simp [loadCalType, enumOf, h]
+
 /-- the invariants of a stored quote: both names are stored (lower-cased, three-byte) names, distinct; the
 settlement text is the date it stands for -/
 def Load.WQuote.OK (q : WQuote) : Prop :=
-  ccyTryNew q.lhs = some q.lhs ∧ ccyTryNew q.rhs = some q.rhs ∧ q.lhs ≠ q.rhs ∧
+  ccyTryNew q.lhs = some q.lhs ∧ ccyTryNew q.rhs = some q.rhs ∧ q.lhs ≠ q.rhs ∧ q.rate.OK ∧
   ∀ s d, q.settlement = some (s, d) → parseDateTime s = some d
 
 theorem loadCcy_doc (c : String) (h : ccyTryNew c = some c) : loadCcy (ccyDoc c) = some c := by
   simp [loadCcy, ccyDoc, fieldsOf, fieldOf, valuesOf, req, asStr, h]
 
 theorem load_written_fxrate (q : WQuote) (h : q.OK) : loadFXRate (writeFXRate q) = some q.shape := by
-  obtain ⟨h1, h2, h3, h4⟩ := h
+  obtain ⟨h1, h2, h3, hro, h4⟩ := h
   have hp : loadFXPair (.arr [ccyDoc q.lhs, ccyDoc q.rhs]) = some (q.lhs, q.rhs) := by
     simp [loadFXPair, loadCcy_doc _ h1, loadCcy_doc _ h2, h3]
-  have hr : loadNumber (.obj [("F64", .num q.rate)]) = some () := by
-    simp [loadNumber, enumOf, asF64]
+  have hr : loadNumber (writeNumber q.rate) = some () := load_written_number q.rate hro
   cases hs : q.settlement with
   | none =>
     simp [loadFXRate, writeFXRate, fieldsOf, fieldOf, valuesOf, req, opt, asOpt, hp, hr, hs, WQuote.shape]
